@@ -481,17 +481,28 @@ def polar_pair(ctx, rule, rels):
                 if not isinstance(c, ast.Call):
                     continue
                 cn = (dotted(c.func) or "").split(".")[-1]
-                if not (cn in ("Dgate", "displacement", "Coherent", "DisplacedSqueezed", "displace", "displacement_kernel")
-                        or "coherent" in cn):
+                if not (cn in ("Dgate", "displacement", "Coherent", "DisplacedSqueezed", "displace", "displacement_kernel",
+                               "Squeezed", "Sgate", "squeezing", "squeeze")
+                        or "coherent" in cn or "squeezed" in cn):
                     continue
-                for i, a in enumerate(c.args[:-1]):
-                    if isinstance(a, ast.Call) and dotted(a.func) in ("np.abs", "abs", "np.absolute") and len(a.args) == 1:
+                from ..dataflow import expand_locals
+                for i, a0 in enumerate(c.args[:-1]):
+                    a = expand_locals(f.node, a0)
+                    # |z| possibly scaled by a constant: abs(z), abs(z) / 2, 0.5 * abs(z)
+                    core = a
+                    while isinstance(core, ast.BinOp) and isinstance(core.op, (ast.Mult, ast.Div)):
+                        core = core.left if not isinstance(core.left, ast.Constant) else core.right
+                    if isinstance(core, ast.Call) and dotted(core.func) in ("np.abs", "abs", "np.absolute") and len(core.args) == 1:
+                        a = core
                         z = ast.unparse(a.args[0]).replace(" ", "")
-                        nxt = c.args[i + 1]
+                        nxt = expand_locals(f.node, c.args[i + 1])
                         n += 1
+                        # the phase is the argument of the same z - or at least computed (a sign test, an arctan): never a literal
                         ok = isinstance(nxt, ast.Call) and dotted(nxt.func) in ("np.angle", "cmath.phase", "np.arctan2") and \
                             nxt.args and z in ast.unparse(nxt).replace(" ", "")
+                        if cn in ("Squeezed", "Sgate", "squeezing", "squeeze") or "squeezed" in cn:
+                            ok = ok or not isinstance(nxt, ast.Constant)
                         ctx.ob(rule, f.site, ok, "" if ok else f"`{ast.unparse(c)[:60]}`: modulus of `{z}` but phase "
-                               f"`{ast.unparse(nxt)[:20]}` - the argument of `{z}` is lost", role=f"polar:{cn}", line=c.lineno)
+                               f"`{ast.unparse(nxt)[:20]}` - the argument / sign of `{z[:40]}` is lost", role=f"polar:{cn}", line=c.lineno)
                         break
     return n
